@@ -186,6 +186,22 @@ CHECKS["C03"] = {
     ],
 }
 
+CHECKS["C04"] = {
+    "pkg": "c04",
+    "level": "exploration",
+    "technique": "runtime trace monitor (pure function over every RPC crossing the client/store boundary, the timestamps granted by the virtual PD and the recorded API calls) evaluated on generated executions: concurrent programs, commit scenarios x fault / crash / resolver-race sweeps, wide transactions regrouped by real splits, heart-beat scenarios",
+    "level_text": "Nine rule groups M1-M9 taken from the statement are evaluated on every trace produced by four generators on mocktikv and unistore. The monitor sees requests and answers at the tikv.Client boundary with a global event order (send / return / TSO grant / API call), so ordering rules are checked against what the client could know at the time it sent a request. Rules are checked on explored executions only.",
+    "level_note": "Trusted: the interposer's event order; mocktikv / unistore answers. Not covered: assertion fields of mutations (the generators set no assertions), GC's batch resolution (exempt by the statement; exercised in C14), the for-update-ts constraint clause that is cut off in the statement text.",
+    "tests": [
+        {"name": "TestMonitorPrograms", "quick": 400, "thorough": 5000, "shards": 16, "timeout_q": 400},
+        {"name": "TestMonitorProgramsUni", "quick": 250, "thorough": 3000, "shards": 16, "timeout_q": 400},
+        {"name": "TestMonitorFaults", "quick": 12, "thorough": 200, "shards": 16, "timeout_q": 400, "timeout_t": 3000},
+        {"name": "TestMonitorFaultsUni", "quick": 8, "thorough": 120, "shards": 16, "timeout_q": 400, "timeout_t": 3000},
+        {"name": "TestMonitorRegroup", "quick": 300, "thorough": 4000, "shards": 16, "timeout_q": 400},
+        {"name": "TestMonitorHeartBeats", "quick": 12, "thorough": 150, "shards": 8, "timeout_q": 400},
+    ],
+}
+
 # properties without a registered check, with the reason (kept current by hand)
 NOT_CLAIMED = {}
 
